@@ -178,7 +178,7 @@ class Gen:
         return self.leaf(vec)
 
 
-def boundary(rng):
+def boundary(rng, k=None):
     from symplyphysics import Quantity, Symbol  # pylint: disable=import-outside-toplevel
     t = Symbol("t", units.time)
     x = Symbol("x", units.length)
@@ -206,7 +206,9 @@ def boundary(rng):
         lambda: Abs(Quantity(-2 * units.volt)) + Symbol("U", units.voltage),
         lambda: x / t - Quantity(3 * units.meter / units.second),
     ]
-    return cases[rng.randrange(len(cases))]()
+    if k is None:
+        k = rng.randrange(len(cases))
+    return cases[k % len(cases)]()
 
 
 # ---- specification predicate (from the property text; used only after a disagreement) -------------------
@@ -428,8 +430,8 @@ def run(ctx):
         g = Gen(rng, 0.25)
         vec, _a = rand_dimvec(rng)
         add(g.expr(vec, rng.choice([2, 3, 4])), "malformed", g)
-    for _ in range(n_boundary):
-        add(boundary(rng), "boundary")
+    for i in range(n_boundary):
+        add(boundary(rng, i), "boundary")   # every curated case is run (cyclically)
 
     bad = coqrun.eval_cases(ctx, "infer", PREAMBLE, [c["lit"] for c in cases],
         "fun c : sexpr * eres * option bool => let '(e, o, b) := c in eres_eqb (infer_e e) o b")
